@@ -313,6 +313,16 @@ func (o *moneyOracle) c05(e *Env, si *StepInfo) {
 			}
 		}
 		got := sumEdges(si, modAddr("order"), oi.Payer).Add(sumEdges(si, modAddr("market"), oi.Payer))
+		// a sid DID may have moved its payment address to another of its bound accounts since the
+		// charge: a refund to the paying DID's current payment address is the same client
+		payDid := po.Owner
+		if po.PaymentDid != "" {
+			payDid = po.PaymentDid
+		}
+		if cur2 := payAddrOf(prev, payDid); cur2 != "" && cur2 != oi.Payer {
+			got = got.Add(sumEdges(si, modAddr("order"), cur2)).Add(sumEdges(si, modAddr("market"), cur2))
+			exact = false
+		}
 		if (exact && !got.Equal(want)) || got.LT(want) {
 			o.once(e, "C05", "C05.refund", lab, "refund-not-full-amount-to-payer", fmt.Sprint(id), fmt.Sprintf("order %d ended before any completion: payer %s received %s in this step, amounts charged for its orders ending here total %s", id, fmtAddr(oi.Payer), got, want))
 		}
